@@ -267,6 +267,22 @@ Definition rule_key (eoi : N) (x : ident) : option N :=
   | _ => None
   end.
 
+(* two different identifiers of one expression that store the same rule struct (only possible if a grammar rule had
+   the index reserved for EOI): then the stored value alone cannot tell which mention a node belongs to *)
+Definition key_clash (eoi : N) (x y : ident) : bool :=
+  match rule_key eoi x, rule_key eoi y with
+  | Some a, Some b => (a =? b)%N && negb (ident_eqb x y)
+  | _, _ => false
+  end.
+
+Fixpoint no_clash (eoi : N) (x : ident) (e : oexpr) : bool :=
+  match e with
+  | OIdent y => negb (key_clash eoi x y)
+  | OPosPred e1 | ONegPred e1 | OOpt e1 | ORep e1 | OPush e1 | ORestore e1 => no_clash eoi x e1
+  | OSeq a b | OChoice a b => no_clash eoi x a && no_clash eoi x b
+  | _ => true
+  end.
+
 (* For identifiers in general (built-in aliases such as ANY store nodes that do not carry their name) the
    specification follows the expression: the nodes stored at the positions where [e] mentions [x], in the
    order of the mentions, negative predicates excluded *)
